@@ -10,6 +10,7 @@ import Generated.Tables
 import Driver.Util
 import Driver.Opt
 import Driver.State
+import Driver.Io
 
 open PV PV.Driver
 
@@ -207,6 +208,9 @@ def execToks (t : List String) : Option String :=
     | some r => some r
     | none => if op == "run" || op == "trace" then execOptCrystal (op == "trace") ts else none
   | "pair" :: op :: ts => execPair op ts
+  | "json" :: op :: ts => execIo "json" op ts
+  | "svg" :: op :: ts => execIo "svg" op ts
+  | "cli" :: "run" :: ts => execCli ts
   | "state" :: op :: ts => execState op ts
   | "basis" :: "seq" :: ts => execBasisSeq ts
   | "wrap" :: "xy" :: ts => run (do
